@@ -99,6 +99,7 @@ func newC19Fixtures() *c19Fixtures {
 		return t
 	}
 	tA, tB := mkTok(f.absA, f.k1), mkTok(f.absB, f.k2)
+	tC := mkTok(f.absC, f.k1) // same profile as A, with every optional claim
 	vA, _ := viewSign1(tA)
 	garbagePayload := []byte{0x00}
 	add := func(name string, tok []byte, dec bool) {
@@ -110,6 +111,7 @@ func newC19Fixtures() *c19Fixtures {
 	}
 	add("token(A,k1)", tA, true)
 	add("token(B,k2)", tB, true)
+	add("token(C-all-optionals,k1)", tC, true)
 	add("token(A,k1)-signature-bitflip", flipAt(tA, vA.sig, 5), true)
 	add("token(A,k1)-payload-bitflip", flipAt(tA, (*f.absA.ImplID), 3), true)
 	add("token(A,k1)-truncated", tA[:len(tA)-7], false)
@@ -138,7 +140,9 @@ func c19System() bfs.System {
 	for i, t := range fx.tokens {
 		ops = append(ops, opDef{"UnmarshalCOSE(" + t.name + ")", "decode", i})
 	}
-	ops = append(ops, opDef{"ev.Claims=C (out of band)", "oob", 0}, opDef{"ev.Claims.SetClientID(77) (in place)", "oob", 1}, opDef{"ev.Claims=invalid (out of band)", "oob", 2})
+	ops = append(ops, opDef{"ev.Claims=C (out of band)", "oob", 0}, opDef{"ev.Claims.SetClientID(77) (in place)", "oob", 1}, opDef{"ev.Claims=invalid (out of band)", "oob", 2},
+		opDef{"ev.Claims.SetSoftwareComponents(empty) (in place, invalidates)", "oob", 3},
+		opDef{"Verify(k1)", "verify", 0}, opDef{"Verify(k2)", "verify", 1})
 	_ = nS
 	_ = nT
 	abs := []*refmodel.Claims{fx.absA, fx.absB, fx.absInvalid}
@@ -260,8 +264,20 @@ func c19System() bfs.System {
 				case 2:
 					x, _ := realise(fx.absInvalid)
 					ev.Claims = x
+				case 3:
+					if ev.Claims == nil {
+						if last {
+							out.Disabled = true
+							return out
+						}
+						continue
+					}
+					_ = ev.Claims.SetSoftwareComponents([]psatoken.ISwComponent{})
 				}
 				replaced = true
+			case "verify":
+				// verification is an operation too (it must not change anything, nor be remembered)
+				_ = ev.Verify([]*fixtures.Key{fx.k1, fx.k2}[op.idx].Pub)
 			}
 		}
 		// ---- state invariants and canonical key ----
@@ -330,9 +346,9 @@ func init() {
 			d = 4
 		}
 		exploreBFS(r, "c19.evidence", bfs.Options{Dedup: false, MaxDepth: d, Deadline: dl})
-		r.Set("rule", "BFS over operation histories on one real Evidence (27 operations incl. 5 faulty signers and 7 decode inputs); state = history, deduplicated by a canonical key read from the real object (claims getters, replaced/failed flags, envelope payload/protected, signature class); invariants of C19 evaluated in every state; distinct = distinct canonical states; non-trivial = all but the initial state")
+		r.Set("rule", "BFS over operation histories on one real Evidence (31 operations incl. 5 faulty signers, 8 decode inputs, in-place and out-of-band claim changes, Verify as an operation); state = history, deduplicated by a canonical key read from the real object (claims getters, replaced/failed flags, envelope payload/protected, signature class); invariants of C19 evaluated in every state; distinct = distinct canonical states; non-trivial = all but the initial state")
 		r.Set("distinct_nontrivial", max64(res.States-1, 0))
-		r.Set("bounds", map[string]any{"operations": 27, "keyed_search": "to fixpoint", "undeduplicated_depth": d})
+		r.Set("bounds", map[string]any{"operations": 31, "keyed_search": "to fixpoint", "undeduplicated_depth": d})
 		r.Assume = append(r.Assume, "signing operations are enabled only while claims are attached (as in the statement)", "a failed decode attempt also replaces the envelope, so the 'verification fails after a failed signing attempt' clause is evaluated until the next sign or decode attempt", "ES256 keys k1/k2; signatures abstracted to 'valid for key k' in the state key")
 		_ = mcbor.Encode
 	}
